@@ -160,6 +160,7 @@ def run(ctx, run):
     _check_tm_year(ctx, run)
     _offset_applied(ctx, run)
     _sibling_thresholds(ctx, run)
+    _leap_check_after_date(ctx, run)
 
     # positive example: the engine must see a leak in a known-leaky shape
     _selftest(ctx, run)
@@ -443,3 +444,33 @@ def _sibling_thresholds(ctx, run):
                       "EN 300 231: hour < 4): the same PIL gets windows of different length depending on how the time zone is "
                       "given" % (sorted(sets[0]), sorted(sets[1])), "%s:%d" % (sibs[0].file, sibs[0].line),
                       witness={"lto": sorted(sets[0]), "tz": sorted(sets[1])})
+
+
+def _leap_check_after_date(ctx, run):
+    """tm_leap_day_check (&tm) judges the date in tm: it must come after tm_mon_mday_from_pil put
+    the PIL's month and day there (before that, tm holds the reference date, which is always real)."""
+    P = ctx.prog
+    n = 0
+    for f in P.funcs:
+        if f.file != "src/pdc.c":
+            continue
+        for bid, i in flow.all_events(f):
+            e = f.exprs[i]
+            if not (e["k"] == "call" and e.get("callee") == "tm_leap_day_check"):
+                continue
+            n += 1
+            run.touch(f)
+            ok = False
+            for b2, j in flow.all_events(f):
+                e2 = f.exprs[j]
+                if e2["k"] == "call" and e2.get("callee") == "tm_mon_mday_from_pil":
+                    if flow.dominates(f, b2, bid) and (b2 != bid or flow.elem_pos(f)[j][1] < flow.elem_pos(f)[i][1]):
+                        ok = True
+            key = "RF-DOM:%s:leap-check-after-pil-date" % f.name
+            if ok:
+                run.holds("RF-DOM", key, "tm_leap_day_check is dominated by tm_mon_mday_from_pil", ex.loc(f, i))
+            else:
+                run.violation("RF-DOM", key, "tm_leap_day_check runs before the PIL's month and day are in tm: it checks the reference "
+                              "date, never fails, and 29 February of a non-leap year is normalised to 1 March instead of being "
+                              "refused", ex.loc(f, i))
+    run.floor("tm_leap_day_check call sites", n, 2)
